@@ -120,6 +120,16 @@ def gen_table(rng, K):
         for a in atoms:
             a["model"] = m
         table.append(atoms)
+    if rng.random() < 0.4:
+        # mmCIF numbers the residues of a chain 1..n in label_seq_id whatever the author's numbers (negative, with
+        # insertion codes, ...) are: in two of five tables the two numbers differ
+        for atoms in table:
+            seen = {}
+            for a in atoms:
+                key = (a["chain"], a["resseq"], a["icode"])
+                if key not in seen:
+                    seen[key] = 1 + sum(1 for k2 in seen if k2[0] == a["chain"])
+                a["lseq"] = seen[key]
     # serial numbers (the TER after a chain takes one number in schemes 0 and 1)
     n = sum(len(t) for t in table)
     sch = rng.choice([0, 0, 1, 2, 3, 4])
@@ -282,7 +292,7 @@ def cif_row(a, rng, chain=None, resseq=None, serial=None):
     return {"group_PDB": a["rec"], "id": str(a["serial"] if serial is None else serial), "type_symbol": a["elem"],
             "label_atom_id": a.get("lname", a["name"]), "label_alt_id": a["alt"] or na(),
             "label_comp_id": a.get("lresn", a["resn"]),
-            "label_asym_id": ch, "label_entity_id": "1", "label_seq_id": str(rs),
+            "label_asym_id": ch, "label_entity_id": "1", "label_seq_id": str(a.get("lseq", rs)),
             "pdbx_PDB_ins_code": a["icode"] or na(), "Cartn_x": fixed(a["x"], 3), "Cartn_y": fixed(a["y"], 3),
             "Cartn_z": fixed(a["z"], 3), "occupancy": fixed(a["occ"], 2), "B_iso_or_equiv": fixed(a["b"], 2),
             "pdbx_formal_charge": str(a["charge"]) if a["charge"] else na(), "auth_seq_id": str(rs),
